@@ -284,7 +284,7 @@ pub fn suite_dec(t: &mut Tracer, tier: Tier, seed: u64) {
     }
     // prefix-integer continuation runs in every position that takes an integer
     for run in 1..=16usize {
-        for term in [0x00u8, 0x01, 0x7f] {
+        for term in [0x00u8, 0x01, 0x02, 0x03, 0x04, 0x10, 0x40, 0x7e, 0x7f] {
             let mut cont = vec![0xffu8; run];
             cont.push(term);
             let ctx: [(&str, Vec<u8>, Vec<u8>); 7] = [
@@ -307,6 +307,19 @@ pub fn suite_dec(t: &mut Tracer, tier: Tier, seed: u64) {
                 z.extend(std::iter::repeat(0x80u8).take(run));
                 z.push(term);
                 z.extend_from_slice(&post);
+                qpack_dec(t, &z);
+            }
+        }
+    }
+    // seeded continuation runs of every length with arbitrary payload bits
+    for run in 1..=12usize {
+        for _ in 0..6 {
+            let mut cont: Vec<u8> = (0..run).map(|_| 0x80 | (r.byte() & 0x7f)).collect();
+            cont.push(r.byte() & 0x7f);
+            for pre in [vec![0x00u8, 0x00, 0xff], vec![0x00, 0x00, 0x5f], vec![0x00, 0x00, 0x50, 0x7f], vec![0x00, 0x00, 0x27]] {
+                let mut z = pre.clone();
+                z.extend_from_slice(&cont);
+                z.extend_from_slice(&[0x00, 0x00]);
                 qpack_dec(t, &z);
             }
         }
@@ -356,6 +369,11 @@ pub fn suite_dec(t: &mut Tracer, tier: Tier, seed: u64) {
         vec![b'r'; 1025],
         vec![0xff, 0xfe],
         vec![0xe2, 0x82],
+        "\u{e9}".repeat(512).into_bytes(),        // 1024 bytes, 512 characters
+        "\u{e9}".repeat(513).into_bytes(),        // 1026 bytes, 513 characters: too long in bytes
+        "\u{e9}".repeat(600).into_bytes(),
+        "\u{1f600}".repeat(256).into_bytes(),     // 1024 bytes, 256 characters
+        "\u{1f600}".repeat(257).into_bytes(),
     ];
     for code in [0u32, 1, 255, 256, 65535, 1 << 31, u32::MAX] {
         for reason in &reasons {
@@ -405,6 +423,12 @@ pub fn suite_ts(t: &mut Tracer, tier: Tier, seed: u64) {
         ("unk4", gen::frame(0x0042_4242, &gen::wt_frame(1))),
         ("unk5", gen::frame(0x3f, &[0x00, 0x05, 0x01])),
         ("unk8", gen::frame((1 << 40) + 3, b"abc")),
+        ("alias_data", gen::frame(1 << 32, &[0x68, 0x43, 0x04, 0, 0, 0, 1])),
+        ("alias_headers", gen::frame((1 << 32) + 1, &[0, 0])),
+        ("alias_settings", gen::frame((1 << 32) + 4, &[0x08, 0x01])),
+        ("alias_wt", gen::frame((1 << 32) + 0x41, &[0x00])),
+        ("alias16", gen::frame(0x1_0004, b"")),
+        ("alias8", gen::frame(0x104, &[0x01, 0x00])),
         ("over", gen::frame_declared(0, 4097, b"xx")),
         ("over4", gen::frame_declared(4, 1 << 20, b"")),
         ("trunc", gen::frame_declared(0, 5, b"ab")),
@@ -477,6 +501,50 @@ pub fn suite_ts(t: &mut Tracer, tier: Tier, seed: u64) {
                 ts_async(t, role, &exch[..cut], &[1, 2, 0, 3], eof);
             }
         }
+    }
+    // unknown and reserved settings inserted among known ones: the values of skipped settings look
+    // like identifiers (reserved, known, GREASE) and must never be re-read as such
+    let known: [(u64, u64); 3] = [(0x08, 1), (0x33, 1), (0x2b60_3742, 1)];
+    let unknown_ids = [0x09u64, 0x0a, 0x40, 0x1234, 0x12_3456, (1 << 40) + 9, (1 << 32) + 0x08, 0x108, 0x1_0033];
+    let tricky_vals = [0x00u64, 0x02, 0x04, 0x05, 0x08, 0x33, 0x21, 0x2b60_3742, 0x1234, 1, (1 << 62) - 1];
+    for uid in unknown_ids {
+        for val in tricky_vals {
+            for pos in 0..=known.len() {
+                let mut p = Vec::new();
+                for (i, (k, v)) in known.iter().enumerate() {
+                    if i == pos {
+                        p.extend(gen::enc_varint(uid));
+                        p.extend(gen::enc_varint(val));
+                    }
+                    p.extend(gen::enc_varint(*k));
+                    p.extend(gen::enc_varint(*v));
+                }
+                if pos == known.len() {
+                    p.extend(gen::enc_varint(uid));
+                    p.extend(gen::enc_varint(val));
+                }
+                settings_dec(t, &p);
+            }
+        }
+    }
+    for g in [0x21u64, 0x21 + 0x1f * 7, 0x21 + 0x1f * 1_000_000_007] {
+        for val in tricky_vals {
+            let mut p = gen::enc_varint(g);
+            p.extend(gen::enc_varint(val));
+            p.extend(gen::enc_varint(0x08));
+            p.extend(gen::enc_varint(1));
+            settings_dec(t, &p);
+        }
+    }
+    // unknown capsule types (payloads that look like close capsules) must be ignored
+    for ty in [0x00u64, 0x2842, 0x2844, 0x78ae, 0x12843, (1 << 32) + 0x2843, 0x21] {
+        let mut c = gen::enc_varint(ty);
+        let mut inner = gen::enc_varint(0x2843);
+        inner.extend(gen::enc_varint(4));
+        inner.extend_from_slice(&[0, 0, 0, 7]);
+        c.extend(gen::enc_varint(inner.len() as u64));
+        c.extend_from_slice(&inner);
+        capsule_dec(t, &c);
     }
     // big payloads through every path
     for len in [4095usize, 4096] {
@@ -624,6 +692,11 @@ pub fn suite_enc(t: &mut Tracer, tier: Tier, seed: u64) {
             maps.push(vec![(name, b"v".to_vec())]);
         }
     }
+    for (nm, val) in [("Age", "0"), ("AGE", "7"), ("Content-Type", "text/plain"), ("Origin", "x"), (":Method", "CONNECT"),
+                      ("Accept", "*/*"), ("age", "0"), ("Age ", "0")] {
+        maps.push(vec![(nm.into(), val.into())]);
+    }
+    maps.push(vec![("age".into(), "1".into()), ("Age".into(), "2".into()), ("AGE".into(), "3".into())]);
     for s in ["h\u{e9}", "\u{4e16}\u{754c}", "\u{1f600}\u{1f600}", "a\u{0}b", "UPPER Case", " lead", "trail "] {
         maps.push(vec![("x-utf8".into(), s.as_bytes().to_vec())]);
         maps.push(vec![(s.as_bytes().to_vec(), b"v".to_vec())]);
